@@ -86,7 +86,20 @@ func c02RefSource(cs c02RefCause, k c02RefCase) string {
 	return sb.String()
 }
 
+// a finding is believed only if it shows again when the case is executed a second time
 func c02RefOne(c *core.Ctx, dir string, k c02RefCase) {
+	sig, msg := c02RefExec(c, dir, k, true)
+	if sig == "" {
+		return
+	}
+	if again, _ := c02RefExec(c, dir, k, false); again != sig {
+		c.Observe("unreproducible_findings_dropped", sig)
+		return
+	}
+	c.Violate(sig, msg, k)
+}
+
+func c02RefExec(c *core.Ctx, dir string, k c02RefCase, count bool) (string, string) {
 	var cs *c02RefCause
 	for i := range c02RefCauses {
 		if c02RefCauses[i].Name == k.Cause {
@@ -94,7 +107,7 @@ func c02RefOne(c *core.Ctx, dir string, k c02RefCase) {
 		}
 	}
 	if cs == nil {
-		return
+		return "", ""
 	}
 	drv.ClearDir(dir)
 	file := "out." + cs.Ext
@@ -116,7 +129,7 @@ func c02RefOne(c *core.Ctx, dir string, k c02RefCase) {
 	r := procx.Exec(procx.Run{Dir: dir, Args: args})
 	if r.Killed || r.Exit < 0 {
 		c.Incomplete("family late-refusal: a csvq process did not end by itself")
-		return
+		return "", ""
 	}
 	left, err := os.ReadFile(full)
 	exists := err == nil
@@ -135,13 +148,15 @@ func c02RefOne(c *core.Ctx, dir string, k c02RefCase) {
 		if !ok {
 			c.Incomplete(fmt.Sprintf("family late-refusal: the control run of %s through %s did not write its table (exit %d %s)", k.Cause, k.Path, r.Exit, strings.TrimSpace(r.Stderr)))
 		}
-		return
+		return "", ""
 	}
 	refused := r.Exit != 0
-	c.Eval(fmt.Sprintf("late-refusal|%s|%d|%d|%s", k.Cause, k.Before, k.After, k.Path), refused && k.Before > 0)
+	if count {
+		c.Eval(fmt.Sprintf("late-refusal|%s|%d|%d|%s", k.Cause, k.Before, k.After, k.Path), refused && k.Before > 0)
+	}
 	if !refused {
 		c.Observe("late_refusal_cases_not_refused", k.Cause+" "+k.Path)
-		return
+		return "", ""
 	}
 	sig := "late-refusal:refused-but-output-left:" + k.Cause + ":" + k.Path
 	msg := ""
@@ -163,9 +178,10 @@ func c02RefOne(c *core.Ctx, dir string, k c02RefCase) {
 			msg = fmt.Sprintf("the existing file %q became %q (exists: %v)", cs.Exist, clip(string(left)), exists)
 		}
 	}
-	if msg != "" {
-		c.Violate(sig, fmt.Sprintf("%s answered with exit code %d (%s) but %s", what, r.Exit, strings.Join(strings.Fields(r.Stderr), " "), msg), k)
+	if msg == "" {
+		return "", ""
 	}
+	return sig, fmt.Sprintf("%s answered with exit code %d (%s) but %s", what, r.Exit, strings.Join(strings.Fields(r.Stderr), " "), msg)
 }
 
 func c02Tail(b []byte) string {
